@@ -426,7 +426,7 @@ func checkObjectViews(c *C14Case, st *Stats) error {
 		seenInt := false
 		for i, k := range c.Kinds {
 			if k == KInt {
-				m[fmt.Sprintf("k%d", i)] = elemValueZ(k, i, !seenInt && c.Pred%2 == 0).(int)
+				m[fmt.Sprintf("Key%d", i)] = elemValueZ(k, i, !seenInt && c.Pred%2 == 0).(int)
 				seenInt = true
 			}
 		}
@@ -436,7 +436,7 @@ func checkObjectViews(c *C14Case, st *Stats) error {
 	vals := map[string]any{}
 	byKind := map[Kind]map[string]any{}
 	for i, k := range c.Kinds {
-		key := fmt.Sprintf("k%d", i)
+		key := fmt.Sprintf("Key%d", i)
 		vals[key] = deriveIf(c.Derived, elemValueZ(k, i, !firstSeen[k] && c.Pred%2 == 0))
 		firstSeen[k] = true
 		if !(c.Route%3 == 1 && k == KInt) {
